@@ -22,13 +22,13 @@ func (*C08) Rule() string {
 }
 
 func (*C08) Plan(tier string) orch.Plan {
-	p := orch.Plan{Episodes: 400, Batch: 1, NeedRace: true, RaceEpisodes: 64, RaceBatch: 8,
+	p := orch.Plan{Episodes: 3000, Batch: 1, NeedRace: true, RaceEpisodes: 96, RaceBatch: 8,
 		Assumptions: []string{
 			"preemption only at user-callback boundaries (attribute Key/Value, String, Error, context Value, Write, SetLevel); the race detector's verdict does not depend on where the switch happened",
 			"race world: the real sync.Pool runs (its own race annotations are what orders Put/Get), so which pooled object a task receives is not on the tape there",
 		}}
 	if tier == "thorough" {
-		p.Episodes, p.RaceEpisodes, p.RaceBatch = 60000, 3000, 16
+		p.Episodes, p.RaceEpisodes, p.RaceBatch = 200000, 6000, 16
 	}
 	return p
 }
